@@ -146,7 +146,7 @@ class Gen:
 
     def atom(self, blocked, kinds=None):
         r = self.r
-        kinds = kinds or ("lit", "lit", "lit", "casei", "bin", "plus", "plus", "rep", "opt", "alt", "inv", "concat", "any", "cls", "rich", "rich")
+        kinds = kinds or ("lit", "lit", "lit", "casei", "bin", "plus", "plus", "rep", "opt", "alt", "inv", "inv2", "concat", "any", "cls", "rich", "rich")
         if self.bias.get("rich") and "rich" in kinds:
             kinds = tuple(kinds) + ("rich",) * 8
         for _ in range(8):
@@ -222,6 +222,26 @@ class Gen:
                 return None
             n = r.choice((1, 2, 4))
             return Atom("/[^%s]+/" % esc_set_char(stop), allb, allb, [r.choice(LETTERS) for _ in range(n)])
+        if k == "inv2":
+            # inverted set made of two ranges with a one-character hole between them
+            base = r.choice(LETTERS[:16])
+            width = r.choice((5, 6, 7, 8))
+            chars = list(range(base, base + width))
+            hole = chars[r.randrange(1, width - 1)]
+            excluded = set(chars) - {hole}
+            stop = None
+            if r.random() < 0.4:
+                stop = r.choice(PUNCT)
+                excluded |= {stop}
+            allb = set(range(256)) - excluded
+            if allb & blocked:
+                return None
+            txt = "[^%s-%s%s-%s%s]" % (chr(chars[0]), chr(hole - 1), chr(hole + 1), chr(chars[-1]), esc_set_char(stop) if stop else "")
+            other = [c for c in LETTERS + DIGITS if c not in excluded]
+            smp = [r.choice(other), hole, r.choice(other), hole][: r.choice((2, 3, 4))]
+            if r.random() < 0.5:
+                return Atom("/%s+/" % txt, allb, allb, smp)
+            return Atom("/%s{2}/" % txt, allb, set(), smp[:2])
         if k == "any":
             if blocked:
                 return None
@@ -440,7 +460,37 @@ class Gen:
         if k == "loop":
             self.loop_names += 1
             name = "l%d" % self.loop_names
-            shape = r.choice(("casebreak", "casebreak", "ifbreak", "nested"))
+            shape = r.choice(("casebreak", "casebreak", "ifbreak", "nested", "multicase", "multicase"))
+            if shape == "multicase":
+                # the classic dispatch loop: several clauses that return to the case (some with actions only, some
+                # with further matches, one with a wait) and one that breaks
+                used = set(blocked)
+                clauses, samples = [], []
+                for ci in range(r.choice((2, 3, 4))):
+                    a = self.atom(used, ("cls", "lit", "lit", "casei", "rep"))
+                    used |= a.first
+                    kind = r.choice(("acts", "acts", "match", "wait", "empty"))
+                    body_l, smp = [], b""
+                    if kind in ("acts", "match", "wait"):
+                        for _ in range(r.choice((1, 2))):
+                            x = self.action(allow_flow=False)
+                            if x:
+                                body_l.append(x)
+                    if kind == "match":
+                        b2 = self.atom(set(a.open), ("lit", "cls", "rep"))
+                        body_l.append("%s;" % b2.text)
+                        smp = b2.sample
+                    elif kind == "wait":
+                        t = r.choice(PUNCT)
+                        body_l.append("wait %s;" % esc_str([t]))
+                        smp = bytes(r.choice(LETTERS) for _ in range(r.choice((0, 1, 2)))) + bytes([t])
+                    clauses += ["%s -> {" % a.text] + ind(body_l) + ["}"]
+                    samples.append(a.sample + smp)
+                brk = self.atom(used, ("lit",))
+                clauses += ["%s -> { break %s; }" % (brk.text, name)]
+                seq_s = b"".join(r.choice(samples) for _ in range(r.choice((2, 4, 7))))
+                return (["loop %s {" % name, "    case {"] + ind(ind(clauses)) + ["    }", "}"], used | brk.first - set(blocked), set(),
+                        seq_s + brk.sample, True)
             if shape == "casebreak":
                 a = self.atom(blocked, ("lit", "cls", "rep", "casei"))
                 b = self.atom(set(blocked) | a.first, ("lit", "cls"))
@@ -684,14 +734,20 @@ def generate_nearmiss(rng):
     if "break;" in prog and "loop" not in prog:
         prog = prog.replace("break;", "")
     pre = r.choice(("", "", "%s; " % esc_str([r.choice(PUNCT)])))
-    src = "\n".join(decl) + "\n\nparser {\n    " + pre + prog + "\n}\n"
+    # lead-ins that enter the construct through a fall-through edge instead of from the start state
+    C = g.atom(set(A.first) | set(A.open) | set(B.first), ("lit",))
+    lead = r.choice(("", "", "", "optional { %s; } " % C.text, "try { %s; } catch (nomatch) { } " % C.text,
+                     "if n0 < 3 { %s; } else { n0 = 0; } " % C.text, "case { %s -> {} else -> {} } " % C.text))
+    src = "\n".join(decl) + "\n\nparser {\n    " + pre + lead + prog + "\n}\n"
     need = []
     if g.ycodes:
         need.append("-fyield-support")
     fill = A.sample[:1] if A.sample else b"a"
     pfx = bytes([ord(pre[1])]) if pre else b""
     samples = [pfx + fill * k for k in (1, n1, n1 + 1, n1 + n2 + 3)] + [pfx + fill * (n1 + 1) + B.sample + fill * 3,
-                                                                       pfx + B.sample + fill * (n1 + 2), pfx + fill + b"\x00"]
+                                                                       pfx + B.sample + fill * (n1 + 2), pfx + fill + b"\x00",
+                                                                       pfx + b"\x01", pfx + C.sample + fill * 2 + b"\x01",
+                                                                       pfx + C.sample + B.sample]
     return {"source": src, "need": need, "canaries": {}, "samples": [s.hex() for s in samples], "near_miss": True, "has_strings": True}
 
 
